@@ -400,7 +400,11 @@ class ModuleVistor(NodeVisitor):
                 current.report("cannot resolve re-exported name :"
                                         f'{modname}.{origin_name}', thresh=1)
             else:
-                if origin_module.all is None or origin_name not in origin_module.all:
+                if ob.parent is None:
+                    # A root module cannot be moved into another module.
+                    current.report("cannot move re-exported root module :"
+                                        f'{ob.fullName()}', thresh=1)
+                elif origin_module.all is None or origin_name not in origin_module.all:
                     self.system.msg(
                         "astbuilder",
                         "moving %r into %r" % (ob.fullName(), current.fullName())
